@@ -807,6 +807,11 @@ impl<'a> LiveEvents<'a> {
                     // Found the start of the next document
                     self.reset_document_state();
                     self.produced_any_in_doc = false;
+                    // The skipped events (including this document start) bypassed the
+                    // budget: restart its per-document accounting explicitly.
+                    if let Some(budget) = self.budget.as_mut() {
+                        budget.restart_document();
+                    }
                     return true;
                 }
                 Event::DocumentEnd => {
